@@ -170,8 +170,15 @@ def call_solver(lat, conv, target, guess):
     ffm.path_between_plaquettes = wrapper
     try:
         f = getattr(ffm, SOLVERS[conv][0])
+        # how an argument is passed (by position or by keyword) is not part of its value: alternate deterministically
+        kwnames = {0: ("target_flux_sector", "initial_ujk_guess"), 1: ("target_flux_sector", "initial_bond_guess")}[conv]
+        style = (0 if target is None else int(np.asarray(target).astype(int).sum()) + len(np.asarray(target))) % 3
         try:
-            return f(lat, target, guess), calls
+            if style == 0:
+                return f(lat, target, guess), calls
+            if style == 1:
+                return f(lat, **{kwnames[0]: target, kwnames[1]: guess}), calls
+            return f(lat, target, **{kwnames[1]: guess}), calls
         except Exception as e:
             return e, calls
     finally:
